@@ -19,7 +19,7 @@ CFG = {
             "reader (known header, missing parent/grandparent, wrong number); VerifyHeaders on batches of 1..40 headers with injected faults under GOMAXPROCS 1,2,3,4,8,16 "
             "with and without jitter, compared with one-by-one VerifyHeader+insert; VerifyUncles on generated block trees (side blocks at depth 1..9, duplicates, ancestors, "
             "invalid, far-future, orphan, exemption-keyed uncles, 0..3 uncles, shallow histories, heights around HF5 and 15000; uncles re-offered across a version fork); header timestamps 2^64*k + t (plausible low 64 bits) for non-uncle headers through verifyHeader, VerifyHeader, VerifyHeaders, InsertHeaderChain and InsertChain; the real HeaderChain.ValidateHeaderChain / BlockChain.InsertHeaderChain / InsertChain on a real chain (memory DB) with linked batches and non-contiguous ones (item i re-pointed at a known sibling of item i-1 for i = 1 and i >= 2, at an ancestor, at an unknown hash; number gap; swapped order) - a refused batch must leave nothing behind; batches that start with already imported blocks (1-3 canonical, a known side block, known + valid new) followed by a block with a valid body whose header violates exactly one rule: the error must come at that item's index and it must be neither stored nor head; offer histories (valid blocks offered before their parent, after a failed sibling, repeatedly, then in order): the verdict must be the engine's verdict on (block, parent chain). Non-trivial = a case the real code did not panic on.",
-    "tie": {"params.isForked, (*ChainConfig).IsHF / GetHF (mini-translator)": "translated (go/ssa -> Lean on every run; isHF_code_is_model) + corr",
+    "tie": {"params.isForked, (*ChainConfig).IsHF / GetHF, aquahash.calcDifficultyStarting / calcDifficultyHF1 (mini-translator)": "translated (go/ssa -> Lean on every run; isHF_code_is_model, calcDifficulty_homestead_code_is_model) + corr",
             "params fork maps / difficulty, gas-limit, extra-data constants": "gen (value dump of package params)",
             "aquahash.maxUncles, maxUnclesHF5, allowedFutureBlockTime": "gen (value dump of package aquahash)",
             "calcDifficultyHFX/Starting/HF1/Grandparent": "corr (aquahash.CalcDifficulty vs Model.calcDifficultyHFX) + Spec judgement (difficultySpec)",
